@@ -19,13 +19,20 @@ def main(tier):
                                  twin='_c13_reach' if (n >= 2 and mode in (1, 2)) else None, twin_timeout=60,
                                  label=f'order n={n} concurrency={[None, "threads", "processes", "bogus"][mode]} {"own" if own else "caller"} executor',
                                  bounds={'files': n, 'completion orders': 'all permutations', 'failing file': 'none or any position', 'max_workers': '1..3'}))
+    for hmode in range(3):
+        for b0 in range(7):
+            jobs.append(dict(path=H, fname='_c13_history', params={'n': 1, 'hmode': hmode, 'b0': b0}, timeout=300, self_reach=True,
+                             unblock=['open', 'os.mkdir', 'os.remove', 'shutil.rmtree', 'os.listdir', 'os.scandir', 'os.rmdir', '_thread.start_new_thread'],
+                             label=f'histories of three batches on real files, {["sequential", "own thread pool", "caller-supplied thread pool"][hmode]}, first batch #{b0}',
+                             bounds={'batches': '7 kinds (readable files in several orders, a gzip file that fails part-way, a missing file, an empty batch)', 'history length': 3,
+                                     'mode': ['sequential', 'threads', 'caller-supplied ThreadPoolExecutor'][hmode], 'oracle': 'specs/kmers_spec.py on the contigs written to each file'}))
     jobs.sort(key=lambda j: -j['timeout'])
     xprop.run_jobs(run, jobs, rung=tier)
     xprop.note_sources(run, ['src/gambit/sigs/calc.py'])
     run.bounds = {'files': f'1..{sizes[-1]}', 'completion order': 'every permutation (symbolic)', 'failing file': 'none or each position',
                   'concurrency': [None, 'threads', 'processes', 'invalid'], 'executor': ['own', 'caller-supplied']}
     run.stubs = ['concurrent.futures.as_completed -> arbitrary permutation of the submitted futures', 'ThreadPoolExecutor/ProcessPoolExecutor -> recording stub executor',
-                 'calc_file_signature -> returns a per-file tag or raises for the failing file']
+                 'calc_file_signature -> returns a per-file tag or raises for the failing file (order conditions); no stubs in the history conditions (real files, parser, thread pools)']
     run.outside = ['the real thread/process pools, pickling across processes', 'more than 5 files']
     run.assumptions = ['CrossHair explores every feasible path of the harness within the per-condition timeout ("Confirmed over all paths")']
     return run.finish(
